@@ -1223,6 +1223,10 @@ func init() {
 		body := g.blk(t, env, f[1])
 		return &Block{Stmts: append([]Stmt{ExprStmt{st}}, body.Stmts...), Final: body.Final}
 	}})
+	// 46 a GENERIC package_info function applied partially and handed on as an argument
+	add(prod{ext: true, name: "partial-generic-pkg-arg", tiny: true, app: is("int"), mk: func(g *Gen, t Type, env Env2, fuel, pos int) Expr {
+		return call("slice.Length", call("slice.Map", call("frt.Sprintf1", StrLit{"<%d>"}), g.Gen("[]int", env, fuel-1, PosExpr)))
+	}})
 	// 25 sequencing
 	add(prod{name: "seq", rep: true, tiny: true, block: true, app: any_, mk: func(g *Gen, t Type, env Env2, fuel, pos int) Expr {
 		f := g.split(fuel-1, 2)
